@@ -8,6 +8,11 @@
 (*                 (400/413, application never sees a field)               *)
 (*   FilterOnce    filters see every byte exactly once, in order;          *)
 (*                 on_end_of_content once on success, on_error <= once     *)
+(*                 what a multipart_filter reads from file::data() in any  *)
+(*                 call-back is the prefix received so far, and its reads  *)
+(*                 change nothing of what the application gets (Exact      *)
+(*                 holds whatever the filter did); abort_upload(code) =>   *)
+(*                 status code, nothing delivered                          *)
 (*   Spill         a file is on disk iff larger than file_in_memory_limit; *)
 (*                 no temporary file survives the request                  *)
 (* The meaning of a small body is computed here from its bytes with        *)
@@ -106,6 +111,22 @@ MpfOK(cbs, ps, complete) ==      \* complete: the whole body was accepted
             /\ IF e > Len(cbs) THEN ~complete
                ELSE cbs[e] = <<3, sz>> /\ MpfOK(SubSeq(cbs, e + 1, Len(cbs)), Tail(ps), complete)
 
+\* what the filter READ through file::data() in its call-backs (c: 1 on_new_file, 2 on_upload_progress,
+\* 3 on_data_ready, 4 on_end_of_content via a saved reference; i: part number; s: file::size() then;
+\* p: position read from; k: bytes asked for): the bytes of the prefix received so far, nothing else
+ObsOK(obs, ps) ==
+    \A j \in 1..Len(obs) :
+        LET e == obs[j]
+        IN /\ e.i >= 1 /\ e.i <= Len(ps)
+           /\ LET P == ps[e.i]
+                  sz == Size(P)
+                  n == IF Has(e, "d") THEN Len(e.d) ELSE e.len
+              IN /\ e.s <= sz /\ (e.c = 1 => e.s = 0) /\ (e.c \in {3, 4} => e.s = sz)
+                 /\ e.p >= 0 /\ e.p <= e.s
+                 /\ n = Min2(e.k, e.s - e.p)
+                 /\ IF Has(e, "d") THEN e.d = SubSeq(P.d, e.p + 1, e.p + n)
+                    ELSE (e.p = 0 /\ n = sz) => e.dig = P.dig
+
 \* ----------------------------------------------------------- Parse
 ParseOK ==
     LET m == MeaningMp(Ev.b, Ev.bnd)
@@ -148,6 +169,12 @@ UpOK ==
     /\ Ev.tmpa = 0
     /\ IF Ev.decl = 0
        THEN Ev.st = 200 /\ Ev.ran /\ Ev.post = <<>> /\ Ev.files = <<>>
+       ELSE IF Ev.fired
+       THEN \* the filter threw abort_upload(code): that status, nothing delivered, no on_error
+            /\ Ev.st = Ev.ab.code /\ NothingDelivered
+            /\ IF Ev.flt = "raw" THEN RawSeenOK(Ev.raw, FALSE) /\ Ev.raw.err = 0 /\ Ev.raw.eoc <= 1
+               ELSE /\ Ev.mpf.err = 0 /\ Ev.mpf.eoc <= 1
+                    /\ (Ev.ct = "mp" /\ m.ok /\ ~m.silent) => MpfOK(Ev.mpf.cbs, m.parts, FALSE) /\ ObsOK(Ev.mpf.obs, m.parts)
        ELSE IF Ev.flt = "raw"
        THEN \* no parsing at all; the filter is the only consumer
             IF ~OverLen /\ ~Short
@@ -164,7 +191,7 @@ UpOK ==
                ELSE PostOK(Ev.post, Fields(m.parts)) /\ FilesOK(Ev.files, FilesOf(m.parts))
             /\ (Ev.ct = "mp" => SpillOK(m.parts))
             /\ (Ev.flt = "mp" => Ev.mpf.eoc = 1 /\ Ev.mpf.err = 0
-                                 /\ (Ev.ct = "mp" => MpfOK(Ev.mpf.cbs, m.parts, TRUE)))
+                                 /\ (Ev.ct = "mp" => MpfOK(Ev.mpf.cbs, m.parts, TRUE) /\ ObsOK(Ev.mpf.obs, m.parts)))
        ELSE /\ Refused /\ NothingDelivered
             /\ (Ev.flt = "mp" => Ev.mpf.eoc = 0 /\ Ev.mpf.err <= 1)
 
